@@ -155,15 +155,12 @@ class ExclusiveParallelStep(ParallelStep):
         generation: int,
     ) -> Iterator[Individual]:
         npopulation: list[Individual] = list(population)
-        total = sum(self.weights)
-        indices = [0] + self.cumsum(
-            [int(round(w * len(npopulation) / total, 0)) for w in self.weights],
-        )
-        ranges = list(zip(indices, indices[1:]))
+        ranges = self.compute_ranges(npopulation, target_size)
         assert len(ranges) == len(self.steps)
-        ranges[-1] = (ranges[-1][0], target_size)  # Fix the last position
 
         for (start, end), step in zip(ranges, self.steps):
+            if end - start <= 0:
+                continue
             yield from step.apply(
                 problem,
                 evaluator,
